@@ -14,6 +14,8 @@ import (
 	"encoding/json"
 	"fmt"
 	"math/rand"
+	"net"
+	"net/http"
 	"sort"
 	"strings"
 	"sync"
@@ -979,5 +981,146 @@ func scenC20(run *vlab.Run, sx, tmp string) {
 			run.Distinct(fmt.Sprintf("%s/%d/%d", strings.Join(args, " "), downAt, downMs))
 			break
 		}
+	}
+}
+
+// ---------------------------------------------------------------------------
+// c02app: confinement of the application scans against what the scanned server (or the environment) says:
+// a target that answers with an HTTP redirect to a host outside the target set, and proxy variables in the
+// environment. Whatever the target answers, no TCP connection may be opened to an address that is not in the
+// target set (or is excluded). Observed as SYNs on lo (kernel sniffer) and as accepts of the outsider.
+func init() { scenarios["c02app"] = scenC02App }
+
+func scenC02App(run *vlab.Run, sx, tmp string) {
+	rng := run.Rand("c02app")
+	n := run.Pick(20, 120)
+	for i := 0; i < n; i++ {
+		kind := []string{"elastic", "docker"}[i%2]
+		mode := []string{"redirect", "redirect", "proxy-env", "redirect-excluded"}[i/2%4]
+		status := []int{301, 302, 303, 307, 308}[rng.Intn(5)]
+		tport := 20000 + rng.Intn(10000)
+		oport := 31000 + rng.Intn(9000)
+		tbase := uint32(0x0a420000) | uint32(rng.Intn(60))<<2 // 10.66.0.x/30
+		outsider := fmt.Sprintf("10.77.0.%d", 1+rng.Intn(250))
+		nw := 1 + rng.Intn(4)
+		if !run.Mine(i) {
+			continue
+		}
+		if mode == "redirect-excluded" {
+			outsider = ipS(tbase&^0xff | 200) // inside 10.66.0.0/24 but excluded (and outside the /30 anyway)
+		}
+		var mu sync.Mutex
+		outsiderHits, targetHits := 0, 0
+		tln, err := net.Listen("tcp4", fmt.Sprintf("0.0.0.0:%d", tport))
+		if err != nil {
+			continue
+		}
+		oln, err := net.Listen("tcp4", fmt.Sprintf("0.0.0.0:%d", oport))
+		if err != nil {
+			tln.Close()
+			continue
+		}
+		obj := `{"ID":"outsider","Name":"outsider","name":"outsider","cluster_name":"c","ApiVersion":"1.41","Version":"20.10.0"}`
+		tsrv := &http.Server{Handler: http.HandlerFunc(func(w http.ResponseWriter, r *http.Request) {
+			mu.Lock()
+			targetHits++
+			mu.Unlock()
+			w.Header().Set("Api-Version", "1.41")
+			if kind == "docker" && strings.HasSuffix(r.URL.Path, "/_ping") {
+				fmt.Fprint(w, "OK")
+				return
+			}
+			if mode == "proxy-env" {
+				w.Header().Set("Content-Type", "application/json")
+				fmt.Fprint(w, strings.ReplaceAll(obj, "outsider", "target"))
+				return
+			}
+			w.Header().Set("Location", fmt.Sprintf("http://%s:%d%s", outsider, oport, r.URL.Path))
+			w.WriteHeader(status)
+		})}
+		osrv := &http.Server{Handler: http.HandlerFunc(func(w http.ResponseWriter, r *http.Request) {
+			mu.Lock()
+			outsiderHits++
+			mu.Unlock()
+			w.Header().Set("Api-Version", "1.41")
+			w.Header().Set("Content-Type", "application/json")
+			fmt.Fprint(w, obj)
+		})}
+		go tsrv.Serve(tln)
+		go osrv.Serve(oln)
+		args := []string{kind, "--json", "-p", fmt.Sprint(tport), "-t", "2s", "-w", fmt.Sprint(nw)}
+		if mode == "redirect-excluded" {
+			args = append(args, "--exclude", writeFile(tmp, "exclude.txt", outsider+"\n"))
+		}
+		args = append(args, fmt.Sprintf("%s/30", ipS(tbase)))
+		var env []string
+		if mode == "proxy-env" {
+			p := fmt.Sprintf("http://%s:%d", outsider, oport)
+			env = []string{"HTTP_PROXY=" + p, "http_proxy=" + p, "HTTPS_PROXY=" + p, "https_proxy=" + p, "NO_PROXY=", "no_proxy="}
+			if i/8%2 == 1 {
+				env = append(env, "ALL_PROXY="+p, "all_proxy="+p)
+			}
+		}
+		run.Case(fmt.Sprintf("c02app%03d", i), map[string]interface{}{"argv": args, "mode": mode, "status": status, "outsider": outsider, "env": env})
+		res := RunCase(sx, &CaseSpec{Args: args, Env: env, Sniff: []string{"lo"}, Timeout: 120 * time.Second, Setup: func(w *World) {
+			mustSh("ip", "link", "set", "dev", "lo", "up")
+			mustSh("ip", "route", "replace", "local", "10.66.0.0/24", "dev", "lo")
+			mustSh("ip", "route", "replace", "local", "10.77.0.0/24", "dev", "lo")
+		}})
+		tsrv.Close()
+		osrv.Close()
+		run.Eval(1)
+		desc := map[string]interface{}{"argv": strings.Join(args, " "), "mode": mode, "status": status, "outsider": fmt.Sprintf("%s:%d", outsider, oport), "env": env}
+		if !baseChecks(run, res, desc, true) {
+			continue
+		}
+		// SYNs per destination
+		oa, _ := oracle.RefIPv4(outsider)
+		synOut, synIn, synOther := 0, 0, 0
+		other := ""
+		for _, e := range res.Sniffed("lo") {
+			d := oracle.Decode(e.Data, oracle.LinkEthernet)
+			if d.IP == nil || d.TCP == nil || d.TCP.Flags&(oracle.FlagSYN|oracle.FlagACK) != oracle.FlagSYN {
+				continue
+			}
+			dst := oracle.IPToU32(d.IP.Dst)
+			switch {
+			case dst >= tbase && dst < tbase+4 && int(d.TCP.DstPort) == tport:
+				synIn++
+			case dst == oa:
+				synOut++
+			default:
+				synOther++
+				other = fmt.Sprintf("%s:%d", oracle.IPString(d.IP.Dst), d.TCP.DstPort)
+			}
+		}
+		mu.Lock()
+		oh, th := outsiderHits, targetHits
+		mu.Unlock()
+		switch {
+		case synOut > 0 || oh > 0:
+			what := "an HTTP redirect sent by the target"
+			if mode == "proxy-env" {
+				what = "proxy variables in the environment"
+			}
+			run.Violation("app-connects-outside-target-set:"+kind+":"+mode, fmt.Sprintf("sx %s opened %d connection(s) to %s:%d, which is not in the target set %s (cause: %s, status %d); the outsider served %d requests: %s", kind, synOut, outsider, oport, args[len(args)-1], what, status, oh, strings.Join(args, " ")), desc)
+		case synOther > 0:
+			run.Violation("app-connects-outside-target-set:"+kind+":other", fmt.Sprintf("sx %s opened %d connection(s) to %s, which is not a target: %s", kind, synOther, other, strings.Join(args, " ")), desc)
+		case synIn == 0:
+			run.Inconclusive(fmt.Sprintf("no connection to a target was seen: %v", desc))
+			continue
+		}
+		// a target that only redirects has not served JSON info itself
+		if mode != "proxy-env" {
+			for _, l := range res.Stdout {
+				run.Violation("app-record-for-redirecting-target:"+kind, fmt.Sprintf("a target that answered %d with an empty body was printed (the JSON came from %s): %.200q", status, outsider, l), desc)
+				break
+			}
+		}
+		run.Count("app_confinement_runs", 1)
+		run.Count("app_confinement:"+kind+":"+mode, 1)
+		run.Count("app_target_connections_seen", int64(synIn))
+		_ = th
+		run.Distinct(strings.Join(args, " ") + mode + fmt.Sprint(status))
 	}
 }
